@@ -10,6 +10,7 @@ import (
 	"context"
 	"fmt"
 	"hash/fnv"
+	"os"
 	"regexp"
 	"sort"
 	"strings"
@@ -29,6 +30,7 @@ type config struct {
 	Hint string `json:"hint,omitempty"`  // text placed in /*+ ... */
 	Seed uint64 `json:"seed,omitempty"`  // random coster seed (0 = default coster)
 	NoMJ bool   `json:"no_mj,omitempty"` // SET @@disable_merge_join = 1
+	Bias string `json:"bias,omitempty"`  // memo.New<Bias>BiasedCoster: rangeheap, merge, lookup, hash, inner, partial
 }
 
 type conj []string // disjunction of atoms; a WHERE / ON clause is a conjunction of these
@@ -359,6 +361,9 @@ func genConfigs(r *lib.RNG, all []string) []config {
 		cfgs = append(cfgs, config{Name: h, Hint: fmt.Sprintf("%s(%s,%s)", h, a, b)})
 	}
 	cfgs = append(cfgs, config{Name: "LEFT_DEEP", Hint: "LEFT_DEEP"}, config{Name: "NO_MERGE_JOIN", Hint: "NO_MERGE_JOIN"})
+	for _, b := range []string{"rangeheap", "merge", "lookup", "hash"} {
+		cfgs = append(cfgs, config{Name: b + "-biased-coster", Bias: b})
+	}
 	p := perm(r, all)
 	h := "JOIN_ORDER(" + strings.Join(p, ",") + ")"
 	alg := lib.Pick(r, []string{"LOOKUP_JOIN", "HASH_JOIN", "MERGE_JOIN"})
@@ -545,6 +550,20 @@ func runEngineConfig(cs *engCase, cf config, wantPlan bool) (out runOut) {
 	if cf.Seed != 0 {
 		e.Engine.Analyzer.Coster = randCoster{cf.Seed}
 	}
+	switch cf.Bias {
+	case "rangeheap":
+		e.Engine.Analyzer.Coster = memo.NewRangeHeapBiasedCoster()
+	case "merge":
+		e.Engine.Analyzer.Coster = memo.NewMergeBiasedCoster()
+	case "lookup":
+		e.Engine.Analyzer.Coster = memo.NewLookupBiasedCoster()
+	case "hash":
+		e.Engine.Analyzer.Coster = memo.NewHashBiasedCoster()
+	case "inner":
+		e.Engine.Analyzer.Coster = memo.NewInnerBiasedCoster()
+	case "partial":
+		e.Engine.Analyzer.Coster = memo.NewPartialBiasedCoster()
+	}
 	if cf.NoMJ {
 		s.Query("SET @@disable_merge_join = 1")
 	}
@@ -603,7 +622,10 @@ func diffType(a, b runOut) string {
 	return "different-rows"
 }
 
-func failsPair(cs *engCase, cf config) bool {
+func failsPair(cs *engCase, cf config) bool { return failKind(cs, cf) != "" }
+
+// failKind returns "" when both configurations agree, else the kind of difference.
+func failKind(cs *engCase, cf config) string {
 	var a, b runOut
 	var wg sync.WaitGroup
 	wg.Add(2)
@@ -611,9 +633,12 @@ func failsPair(cs *engCase, cf config) bool {
 	go func() { defer wg.Done(); b = runEngineConfig(cs, cf, false) }()
 	wg.Wait()
 	if strings.HasPrefix(a.err, "setup:") || strings.HasPrefix(b.err, "setup:") {
-		return false
+		return ""
 	}
-	return !sameOut(a, b)
+	if sameOut(a, b) {
+		return ""
+	}
+	return diffType(a, b)
 }
 
 func cloneCase(c *engCase) *engCase {
@@ -805,6 +830,7 @@ func reductions(c *engCase) []*engCase {
 func shrink(cs *engCase, cf config) *engCase {
 	cur := cloneCase(cs)
 	cur.Configs = []config{{Name: "default"}, cf}
+	want := failKind(cur, cf)
 	budget := 400
 	for changed := true; changed && budget > 0; {
 		changed = false
@@ -813,7 +839,7 @@ func shrink(cs *engCase, cf config) *engCase {
 			if budget <= 0 {
 				break
 			}
-			if failsPair(d, d.Configs[1]) {
+			if k := failKind(d, d.Configs[1]); k != "" && k == want {
 				cur = d
 				changed = true
 				break
@@ -868,6 +894,9 @@ func runEngine(c *lib.Ctx, cs engCase) {
 		if outs[i].plan != "" {
 			plans[outs[i].plan] = true
 		}
+		if os.Getenv("C01_DEBUG") != "" {
+			fmt.Fprintf(os.Stderr, "--- %s [%s] seed=%d\n%s\nrows=%v err=%s\n%s\n", cs.Configs[i].Name, cs.Configs[i].Hint, cs.Configs[i].Seed, cs.query(cs.Configs[i].Hint), outs[i].rows, outs[i].err, outs[i].plan)
+		}
 	}
 	key := ""
 	if len(outs[0].rows) > 0 {
@@ -897,13 +926,16 @@ func runEngine(c *lib.Ctx, cs engCase) {
 		cf := cs.Configs[i]
 		min := &cs
 		a, b := outs[0], outs[i]
-		if shrinksDone < 80 {
-			shrinksDone++
-			min = shrink(&cs, cf)
-			cf = min.Configs[1]
-			a, b = runEngineConfig(min, config{Name: "default"}, false), runEngineConfig(min, cf, false)
+		if shrinksDone >= 400 {
+			// shrink budget of the run exhausted: counted, not classified (an unshrunk signature would be arbitrary)
+			c.Count("engine:failure-beyond-shrink-budget")
+			return
 		}
-		sig := signature(min, diffType(a, b))
+		shrinksDone++
+		min = shrink(&cs, cf)
+		cf = min.Configs[1]
+		a, b = runEngineConfig(min, config{Name: "default"}, true), runEngineConfig(min, cf, true)
+		sig := signature(min, diffType(a, b), a.plan, b.plan)
 		what := fmt.Sprintf("%s over %q: default plan returns %v %s; under %s [%s] it returns %v %s",
 			min.query(""), min.setup(), a.rows, a.err, cf.Name, cf.Hint, b.rows, b.err)
 		c.PredFail(id, sig, what, min)
@@ -911,10 +943,16 @@ func runEngine(c *lib.Ctx, cs engCase) {
 	}
 }
 
-// signature derives a narrow classification from the shape of the shrunk failing statement.
-func signature(m *engCase, diff string) string {
+// signature classifies a failure by ROOT CAUSE, from the shape of the shrunk statement, its data and the two
+// plans that disagree (plan operators name the mechanism).  Anything that matches no triaged cause falls through
+// to a literal shape signature, which is not listed in findings and therefore reported.
+func signature(m *engCase, diff string, planA, planB string) string {
+	plans := planA + "\n" + planB
 	colHasNull := func(qcol string) bool { // "x1.b"
 		parts := strings.SplitN(qcol, ".", 2)
+		if len(parts) != 2 {
+			return false
+		}
 		tn := ""
 		for _, f := range m.From {
 			if f.Alias == parts[0] {
@@ -938,32 +976,76 @@ func signature(m *engCase, diff string) string {
 		}
 		return false
 	}
-	nsub := 0
+	plainWhere := false
 	for _, w := range m.Where {
-		if w.Sub != nil {
-			nsub++
+		if w.Sub == nil && len(w.Disj) > 0 {
+			plainWhere = true
 		}
 	}
-	// (1) semi join turned into an inner join over DISTINCT right columns although the filter is not a
-	//     conjunction of column equalities
+	aliasesIn := func(txt string) int {
+		n := 0
+		for _, al := range m.allAliases() {
+			if strings.Contains(txt, al+".") {
+				n++
+			}
+		}
+		return n
+	}
+	for _, f := range m.From { // a one-table conjunct of an inner join's ON clause is a static filter too
+		if f.Kind == "INNER" {
+			for _, c := range f.On {
+				if aliasesIn(renderConj(c)) == 1 {
+					plainWhere = true
+				}
+			}
+		}
+	}
+	padded := map[string]bool{} // aliases on the null-supplying side of an outer join
+	for i, f := range m.From {
+		switch f.Kind {
+		case "LEFT":
+			padded[f.Alias] = true
+		case "RIGHT":
+			for _, g := range m.From[:i] {
+				padded[g.Alias] = true
+			}
+		}
+	}
+	nullable := func(qcol string) bool { return colHasNull(qcol) || padded[strings.SplitN(qcol, ".", 2)[0]] }
+	// (1) convertSemiToInnerJoin: semi join turned into an inner join over DISTINCT right columns although the
+	//     filter is not a conjunction of column equalities (Or / Arithmetic admitted)
 	if diff == "duplicate-rows" {
 		for _, w := range m.Where {
 			if w.Sub != nil && (w.Sub.Kind == "EXISTS" || w.Sub.Kind == "IN") {
 				for _, c := range w.Sub.Where {
 					if len(c) > 1 {
-						return "duplicate-rows/semi-join-filter/" + strings.ToLower(w.Sub.Kind) + "/or"
+						return "duplicate-rows/semi-join-to-inner-join/or-filter"
 					}
 					for _, a := range c {
 						if atomClass(a) == "eq-arith" {
-							return "duplicate-rows/semi-join-filter/" + strings.ToLower(w.Sub.Kind) + "/arith"
+							return "duplicate-rows/semi-join-to-inner-join/arithmetic-filter"
 						}
 					}
 				}
 			}
 		}
 	}
-	// (2) an inner join whose ON clause mentions the null-supplying side of an earlier outer join and another table
-	if diff == "different-rows" && nsub == 0 {
+	// (2) NOT IN becomes LeftOuterJoinExcludingNulls (convertAntiToLeftJoin); JoinType.AsLookup / AsMerge map it
+	//     to the plain LeftOuterLookup / LeftOuterMerge join, which keeps rows whose comparison is NULL
+	for _, w := range m.Where {
+		if w.Sub != nil && w.Sub.Kind == "NOT IN" && (nullable(w.Sub.Outer) || colHasNull(w.Sub.Col)) {
+			switch {
+			case strings.Contains(plans, "LeftOuterLookupJoin"):
+				return "not-in-null/exclude-nulls-lost/left-outer-lookup-join"
+			case strings.Contains(plans, "LeftOuterMergeJoin"):
+				return "not-in-null/exclude-nulls-lost/left-outer-merge-join"
+			}
+		}
+	}
+	// (3) join order builder: an inner join whose ON clause mentions the null-supplying side of an earlier outer
+	//     join and something else; addJoin drops the applicable inner-edge filters (selFilters unused) when the
+	//     outer join is built on top.
+	{
 		nullSide := map[string]bool{}
 		for i, f := range m.From {
 			switch f.Kind {
@@ -986,28 +1068,68 @@ func signature(m *engCase, diff string) string {
 					}
 				}
 				if hitsNull && (hitsOther || len(f.On) > 1) {
-					return "different-rows/inner-join-on-mentions-null-supplying-side-of-outer-join"
+					return "inner-join-on-mentions-null-supplying-side-of-outer-join/inner-edge-filter-dropped"
+				}
+				if hitsNull {
+					nullSide[f.Alias] = true // inner-joined to the null-supplying side: its edges depend on it too
 				}
 			}
 		}
 	}
-	// (3) NOT IN with a NULL on either side
-	if (diff == "different-rows" || diff == "duplicate-rows") && nsub == 1 {
-		for _, w := range m.Where {
-			if w.Sub != nil && w.Sub.Kind == "NOT IN" {
-				o, i := colHasNull(w.Sub.Outer), colHasNull(w.Sub.Col)
-				switch {
-				case o && i:
-					return "different-rows/not-in/null-on-both-sides"
-				case o:
-					return "different-rows/not-in/null-outer-operand"
-				case i:
-					return "different-rows/not-in/null-in-subquery"
+	// (3b) keyForExpr (indexed_joins.go): the named result `nullable` is set by ANY earlier `<=>` conjunct, so a key
+	//      taken from a later `=` conjunct is looked up null-safely and NULL = NULL matches
+	if strings.Contains(plans, "keys:") {
+		check := func(cs []conj) bool {
+			ns, eqNull := false, false
+			for _, c := range cs {
+				for _, a := range c {
+					switch atomClass(a) {
+					case "nullsafe-eq-cols", "nullsafe-eq-cols-same-table":
+						ns = true
+					case "eq-cols":
+						parts := strings.SplitN(a, " = ", 2)
+						if nullable(parts[0]) && nullable(parts[1]) {
+							eqNull = true
+						}
+					}
 				}
+			}
+			return ns && eqNull
+		}
+		for _, f := range m.From {
+			if check(f.On) {
+				return "lookup-join/null-safe-flag-leaks-from-nullsafe-conjunct-to-equality-key"
 			}
 		}
 	}
-	// otherwise: the shape of the shrunk statement (plain WHERE atoms only as a marker)
+	// (4) mergeJoinIter msRejectNull tests cmp.Left() == nil; for a tuple key (two equality conjuncts) a NULL
+	//     component is not nil, so the RIGHT side is advanced and matches are skipped
+	if strings.Contains(plans, "MergeJoin") && strings.Contains(plans, "cmp: ((") {
+		for _, f := range m.From {
+			neq := 0
+			null := false
+			for _, c := range f.On {
+				if len(c) == 1 && atomClass(c[0]) == "eq-cols" {
+					neq++
+					parts := strings.SplitN(c[0], " = ", 2)
+					null = null || colHasNull(parts[0]) || colHasNull(parts[1])
+				}
+			}
+			if neq >= 2 && null {
+				return "merge-join-tuple-key/null-component-advances-wrong-side"
+			}
+		}
+	}
+	// (5) makeIndexScan keeps only the filters it can turn into a range on the index prefix; the ordered index
+	//     scans that addRangeHeapJoin puts under the join replace Filter->Table, so other static filters are lost
+	if plainWhere && strings.Contains(plans, "RangeHeapJoin") {
+		return "filter-lost/range-heap-join-index-scan"
+	}
+	// (6) lookup join over a Concat of index lookups (OR of equalities): static filters of the looked-up table are lost
+	if plainWhere && strings.Contains(plans, "Concat") {
+		return "filter-lost/lookup-join-over-concat"
+	}
+	// otherwise: the literal shape of the shrunk statement (plain WHERE atoms only as a marker)
 	var fs []string
 	seen := map[string]bool{}
 	for _, f := range m.features() {
